@@ -141,15 +141,20 @@ class Avail(VS.Interp):
         return st
 
 
-def run(chk):
+PREFIX = 'C08'
+
+
+def run(chk, parts=('L1', 'L2', 'L2b', 'L3')):
     fx = F.Facts()
-    chk.rule('C08-L1', 'no `self.consume().unwrap()` executes without a character known to be available: peek_cur_ch()/peek_next_ch() tested Some on the path '
+    if 'L1' in parts:
+      chk.rule(PREFIX + '-L1', 'no `self.consume().unwrap()` executes without a character known to be available: peek_cur_ch()/peek_next_ch() tested Some on the path '
                        '(while let / if let / match Some / is_some / == Some(c) / .map(..).unwrap_or(false) / a local bound to a peek and tested), each consume uses one up')
-    chk.rule('C08-L2', 'a token\'s column advance equals the number of source characters consumed for it: in the escape handlers of the string lexers the characters '
+    chk.rule(PREFIX + '-L2', 'a token\'s column advance equals the number of source characters consumed for it: in the escape handlers of the string lexers the characters '
                        'appended to the token text equal the characters consumed (emit_*_token advances the column by cont.chars().count())')
-    chk.rule('C08-L2b', 'column arithmetic is in characters: no value derived from str/String::len() (bytes) flows into col_begin / col_end / col_token_starts, '
+    chk.rule(PREFIX + '-L2b', 'column arithmetic is in characters: no value derived from str/String::len() (bytes) flows into col_begin / col_end / col_token_starts, '
                         'unless the string provably holds only ASCII characters')
-    chk.rule('C08-L3', 'Indent/Dedent pairing: every indent_stack.push lies on a path producing an Indent token, every pop on a path producing a Dedent (or an error); '
+    if 'L3' in parts:
+      chk.rule(PREFIX + '-L3', 'Indent/Dedent pairing: every indent_stack.push lies on a path producing an Indent token, every pop on a path producing a Dedent (or an error); '
                        'EOF is accepted only under indent_stack.is_empty()')
     d = fx.file(LEX)
     fns = [f for f in d['fns'] if (f.get('self_ty') or '').split('::')[-1] == 'Lexer']
@@ -175,37 +180,38 @@ def run(chk):
                     consumers.add(nm)
                     changed = True
                     break
-    # ---- L1
-    sites = 0
-    for f in fns:
-        fname = T.norm(f['path'])
-        found = []
-        ip = Avail(fname, consumers, None)
-        # intercept consume().unwrap(): evaluate availability just before the consume
-        orig_ex = ip.ex
+    if 'L1' in parts:
+        # ---- L1
+        sites = 0
+        for f in fns:
+            fname = T.norm(f['path'])
+            found = []
+            ip = Avail(fname, consumers, None)
+            # intercept consume().unwrap(): evaluate availability just before the consume
+            orig_ex = ip.ex
 
-        def ex(n, st, orig_ex=orig_ex, found=found, ip=ip):
-            if st is not None and n is not None and n.get('k') == 'MCall' and n['n'] in ('unwrap', 'expect'):
-                r = T.peel(n['r'])
-                if r.get('k') == 'MCall' and r['n'] == 'consume' and T.show(r['r']) == 'self':
-                    found.append((n, st[0]))
-            return orig_ex(n, st)
-        ip.ex = ex
-        # Interp.ex recursion goes through self.ex, so the wrapper is used for nested nodes too
-        ip.run_fn(f, (entry_avail(f['path'].rsplit('::', 1)[-1]), ()))
-        seen = set()
-        for (n, av) in found:
-            if id(n) in seen:
-                continue
-            worst = min(a for (m, a) in found if m is n)
-            seen.add(id(n))
-            sites += 1
-            if worst >= 1:
-                chk.ok('C08-L1', (fname, n['l']), sample='%s: consume().unwrap() with %d character(s) known available' % (fname, worst))
-            else:
-                chk.bad('C08-L1', fname, 'consume().unwrap()', '%s calls self.consume().unwrap() where no character is known to be available: an input ending there panics the lexer'
-                        % fname, LEX, n['l'])
-    chk.floor('consume().unwrap() sites', sites, 30)
+            def ex(n, st, orig_ex=orig_ex, found=found, ip=ip):
+                if st is not None and n is not None and n.get('k') == 'MCall' and n['n'] in ('unwrap', 'expect'):
+                    r = T.peel(n['r'])
+                    if r.get('k') == 'MCall' and r['n'] == 'consume' and T.show(r['r']) == 'self':
+                        found.append((n, st[0]))
+                return orig_ex(n, st)
+            ip.ex = ex
+            # Interp.ex recursion goes through self.ex, so the wrapper is used for nested nodes too
+            ip.run_fn(f, (entry_avail(f['path'].rsplit('::', 1)[-1]), ()))
+            seen = set()
+            for (n, av) in found:
+                if id(n) in seen:
+                    continue
+                worst = min(a for (m, a) in found if m is n)
+                seen.add(id(n))
+                sites += 1
+                if worst >= 1:
+                    chk.ok(PREFIX + '-L1', (fname, n['l']), sample='%s: consume().unwrap() with %d character(s) known available' % (fname, worst))
+                else:
+                    chk.bad(PREFIX + '-L1', fname, 'consume().unwrap()', '%s calls self.consume().unwrap() where no character is known to be available: an input ending there panics the lexer'
+                            % fname, LEX, n['l'])
+        chk.floor('consume().unwrap() sites', sites, 30)
     # ---- L2 escape arms
     escapes = 0
     for f in fns:
@@ -242,9 +248,9 @@ def run(chk):
                 for ch in chars:
                     escapes += 1
                     if pushed == consumed:
-                        chk.ok('C08-L2', (fname, ch))
+                        chk.ok(PREFIX + '-L2', (fname, ch))
                     else:
-                        chk.bad('C08-L2', fname, 'escape:%s' % repr(ch), '%s: escape \\%s consumes %d source characters but appends %d to the token text: every later token on the line '
+                        chk.bad(PREFIX + '-L2', fname, 'escape:%s' % repr(ch), '%s: escape \\%s consumes %d source characters but appends %d to the token text: every later token on the line '
                                 'is reported %d column(s) %s' % (fname, ch if ch != '\n' else 'n', consumed, pushed, abs(consumed - pushed), 'left' if consumed > pushed else 'right'),
                                 LEX, arm['l'])
     chk.floor('escape arms', escapes, 20)
@@ -273,13 +279,14 @@ def run(chk):
                 bad = byte_len_source(val, env, f)
                 where = T.norm(f['path'])
                 if bad:
-                    chk.bad('C08-L2b', where, '%s<-%s' % (tgt, bad), '%s computes the column `%s` from `%s`, a byte length: tokens after non-ASCII text are reported too far right' % (where, tgt, bad),
+                    chk.bad(PREFIX + '-L2b', where, '%s<-%s' % (tgt, bad), '%s computes the column `%s` from `%s`, a byte length: tokens after non-ASCII text are reported too far right' % (where, tgt, bad),
                             file, n['l'])
                 else:
-                    chk.ok('C08-L2b', (where, tgt, n['l']), sample='%s: %s <- %s' % (where, tgt, T.show(val)))
+                    chk.ok(PREFIX + '-L2b', (where, tgt, n['l']), sample='%s: %s <- %s' % (where, tgt, T.show(val)))
     chk.floor('column computations', nb, 8)
     # ---- L3 indent / dedent pairing
-    l3(chk, fns)
+    if 'L3' in parts:
+        l3(chk, fns)
     return ('Typestate analysis of impl Lexer over structured HIR: availability of characters before consume().unwrap(), consumed-vs-appended characters of every escape arm, '
             'units of column arithmetic, Indent/Dedent pairing. Termination of the token loop and columns of multi-line tokens are not decided.'), {}
 
@@ -366,23 +373,23 @@ def l3(chk, fns):
                 if n['n'] == 'push':
                     pushes += 1
                     if 'Indent' in kinds:
-                        chk.ok('C08-L3', (fname, 'push', n['l']), sample='%s: indent_stack.push with an Indent token on the same branch' % fname)
+                        chk.ok(PREFIX + '-L3', (fname, 'push', n['l']), sample='%s: indent_stack.push with an Indent token on the same branch' % fname)
                     else:
-                        chk.bad('C08-L3', fname, 'push-without-Indent', '%s pushes the indent stack on a branch that emits %s, not an Indent token' % (fname, sorted(kinds)), LEX, n['l'])
+                        chk.bad(PREFIX + '-L3', fname, 'push-without-Indent', '%s pushes the indent stack on a branch that emits %s, not an Indent token' % (fname, sorted(kinds)), LEX, n['l'])
                 else:
                     pops += 1
                     if 'Dedent' in kinds or errs:
-                        chk.ok('C08-L3', (fname, 'pop', n['l']))
+                        chk.ok(PREFIX + '-L3', (fname, 'pop', n['l']))
                     else:
-                        chk.bad('C08-L3', fname, 'pop-without-Dedent', '%s pops the indent stack on a branch that emits %s, not a Dedent token' % (fname, sorted(kinds)), LEX, n['l'])
+                        chk.bad(PREFIX + '-L3', fname, 'pop-without-Dedent', '%s pops the indent stack on a branch that emits %s, not a Dedent token' % (fname, sorted(kinds)), LEX, n['l'])
         # EOF only with empty stack
         for n, ctx in T.walk_ctx(f['body']):
             if n.get('k') == 'MCall' and n['n'] in ('accept', 'emit_singleline_token') and n['a'] and T.show(T.peel(n['a'][0])).endswith('EOF'):
                 guarded = any(c[0] == 'if' and 'indent_stack' in T.show(c[1]) and 'is_empty' in T.show(c[1]) for c in ctx)
                 if guarded:
-                    chk.ok('C08-L3', (fname, 'EOF'), sample='%s: EOF emitted under an indent_stack.is_empty() test' % fname)
+                    chk.ok(PREFIX + '-L3', (fname, 'EOF'), sample='%s: EOF emitted under an indent_stack.is_empty() test' % fname)
                 else:
-                    chk.bad('C08-L3', fname, 'EOF-unguarded', '%s emits EOF without testing that the indent stack is empty: the stream can end with more indents than dedents' % fname, LEX, n['l'])
+                    chk.bad(PREFIX + '-L3', fname, 'EOF-unguarded', '%s emits EOF without testing that the indent stack is empty: the stream can end with more indents than dedents' % fname, LEX, n['l'])
     chk.floor('indent_stack pushes', pushes, 1)
     chk.floor('indent_stack pops', pops, 1)
 
